@@ -546,7 +546,7 @@ class Engine:
                 lvl, len(by), sum(map(len, by.values())), n, t1 - t0, t2 - t1, time.time() - t2))
         return self.final(list(jobs) + list(extra_final), tag)
 
-    def lockstep(self, jobs, tag="lock"):
+    def lockstep(self, jobs, tag="lock", grammar=True):
         """Lock-step conformance (DESIGN.md 4.2): the jobs are run once more with I/O recording and the recorded calls,
         committed metadata and reported bounds are validated against spec/WalImplTrace.tla (drift only, no verdict)."""
         import copy
@@ -558,7 +558,8 @@ class Engine:
             js.append(c)
         t0 = time.time()
         _, io, st = run_jobs(js, self.wd, tag, need_io=True)
-        io_grammar(io, self.wd, self.stats)
+        if grammar:
+            io_grammar(io, self.wd, self.stats)      # (the call-order grammar knows nothing about injected failures)
         impl_trace(io, self.wd, self.stats)
         self.stats["lockstep_runs"] = self.stats.get("lockstep_runs", 0) + st["runs"]
         log("lock-step: %d runs validated against WalImplTrace in %.1fs, drift %d" % (st["runs"], time.time() - t0, self.stats.get("impl_drift", 0)))
